@@ -237,15 +237,22 @@ func (p *poller) SetWrite(slot *Slot) error {
 func (p *poller) setRW(fd int, slot *Slot, flag PollerEvent) error {
 	events := &slot.Events
 	if *events&flag != flag {
-		p.pending++
-
 		oldEvents := *events
 		*events |= flag
 
+		var err error
 		if oldEvents == 0 {
-			return p.add(fd, createEvent(*events, slot))
+			err = p.add(fd, createEvent(*events, slot))
+		} else {
+			err = p.modify(fd, createEvent(*events, slot))
 		}
-		return p.modify(fd, createEvent(*events, slot))
+		if err != nil {
+			// The kernel did not take the registration (descriptor not pollable, closed, ...): nothing is pending and
+			// the slot must not claim an interest it does not have.
+			*events = oldEvents
+			return err
+		}
+		p.pending++
 	}
 	return nil
 }
@@ -284,9 +291,11 @@ func (p *poller) modify(fd int, event Event) error {
 }
 
 func (p *poller) Del(slot *Slot) error {
-	err := p.DelRead(slot)
-	if err == nil {
-		return p.DelWrite(slot)
+	// Both interests must be dropped from the bookkeeping even if the kernel refuses the first removal.
+	errRead := p.DelRead(slot)
+	errWrite := p.DelWrite(slot)
+	if errRead == nil {
+		return errWrite
 	}
 	return nil
 }
